@@ -54,6 +54,9 @@ for _pid in PROPS:
 
 PROPS["C12"]["freerun"] = {"rounds_quick": 400, "rounds_thorough": 20000, "race": False, "watch": ["stranded", "wrongerr"],
                            "meaning": "a caller still waiting 20 s after the connection was closed; a caller handed a recovered panic or another request's failure"}
+PROPS["C11"]["freerun"] = {"rounds_quick": 600, "rounds_thorough": 20000, "race": False, "watch": ["resent", "retryproc"],
+                           "meaning": "pool rounds through the real Client.RoundTrip / pickConn / roundTripOnce: a request reached a handler twice "
+                                      "(the client sent again what a server had processed); RoundTrip said retry for a request a handler had been given"}
 PROPS["C02"]["freerun"] = {"rounds_quick": 400, "rounds_thorough": 20000, "race": False, "watch": ["mismatch", "wrongerr"],
                            "meaning": "a response that is not this caller's; a caller handed a recovered panic or another request's failure"}
 
